@@ -101,6 +101,12 @@ func checkPanics(c *Check) {
 				r.Bad(key, call.Pos(), why)
 				return true
 			}
+			// the panic follows a partial switch over the function's own token-type parameter: discharged when every call site
+			// hands over the tag of an enclosing switch, inside a case whose constants the partial switch handles, before the cursor moves
+			if okT, why := partialTokenSwitchDischarged(L, fi, call); okT {
+				r.OK(key, call.Pos(), why)
+				return true
+			}
 			in := r.add(Bad, key, call.Pos(), "")
 			if why, ok := c03PanicTable[strings.TrimPrefix(in.Key, "R3.1|")]; ok {
 				in.Status, in.St, in.Msg = Exempt, Exempt.String(), why
@@ -110,6 +116,102 @@ func checkPanics(c *Check) {
 			return true
 		})
 	})
+}
+
+// partialTokenSwitchDischarged: fi is `func (p *parser) f(t token.TokenType) …` whose body is a switch over t followed by the
+// panic. Every call site must pass exactly the tag expression of an enclosing switch, from inside a case clause whose constants are
+// all handled by f's switch, with no cursor-moving parser call between the head of that clause and the call.
+func partialTokenSwitchDischarged(L *Loaded, fi *FuncInfo, panicCall *ast.CallExpr) (bool, string) {
+	info := fi.Pkg.TypesInfo
+	sig := fi.Obj.Type().(*types.Signature)
+	if sig.Params().Len() != 1 || !strings.HasSuffix(sig.Params().At(0).Type().String(), "token.TokenType") {
+		return false, ""
+	}
+	param := sig.Params().At(0)
+	var sw *ast.SwitchStmt
+	for i, st := range fi.Decl.Body.List {
+		if es, ok := st.(*ast.ExprStmt); ok && es.X == ast.Expr(panicCall) && i > 0 {
+			sw, _ = fi.Decl.Body.List[i-1].(*ast.SwitchStmt)
+		}
+	}
+	if sw == nil || sw.Tag == nil {
+		return false, ""
+	}
+	if id, ok := ast.Unparen(sw.Tag).(*ast.Ident); !ok || info.Uses[id] != param {
+		return false, ""
+	}
+	handled := map[types.Object]bool{}
+	for _, cl := range sw.Body.List {
+		cc := cl.(*ast.CaseClause)
+		returns := false
+		for _, st := range cc.Body {
+			if _, ok := st.(*ast.ReturnStmt); ok {
+				returns = true
+			}
+		}
+		if !returns {
+			return false, ""
+		}
+		for _, e := range cc.List {
+			if s, ok := ast.Unparen(e).(*ast.SelectorExpr); ok {
+				handled[info.Uses[s.Sel]] = true
+			}
+		}
+	}
+	moves := map[string]bool{"advance": true, "matchAny": true, "matchSeq": true, "consumeSeq": true, "consumeAny": true, "decrease": true}
+	sites := L.CallSites(fi.Obj)
+	if len(sites) == 0 {
+		return false, ""
+	}
+	for _, cs := range sites {
+		ci := cs.Fn.Pkg.TypesInfo
+		argTxt := types.ExprString(cs.Call.Args[0])
+		// innermost enclosing case clause of a switch with that tag
+		var clause *ast.CaseClause
+		var stack []ast.Node
+		ast.Inspect(cs.Fn.Decl.Body, func(n ast.Node) bool {
+			if n == nil {
+				stack = stack[:len(stack)-1]
+				return true
+			}
+			stack = append(stack, n)
+			if n == ast.Node(cs.Call) {
+				for i := len(stack) - 1; i >= 2; i-- {
+					if cc, ok := stack[i].(*ast.CaseClause); ok {
+						if s, ok := stack[i-2].(*ast.SwitchStmt); ok && s.Tag != nil && types.ExprString(s.Tag) == argTxt {
+							clause = cc
+							break
+						}
+					}
+				}
+			}
+			return true
+		})
+		where := L.Pos(cs.Call.Pos())
+		if clause == nil || clause.List == nil {
+			return false, "call at " + where + " does not pass the tag of an enclosing switch"
+		}
+		for _, e := range clause.List {
+			s, ok := ast.Unparen(e).(*ast.SelectorExpr)
+			if !ok || !handled[ci.Uses[s.Sel]] {
+				return false, "call at " + where + " is reached for " + types.ExprString(e) + ", which the callee does not handle"
+			}
+		}
+		// no cursor movement between the head of the clause and the call
+		moved := false
+		ast.Inspect(clause, func(n ast.Node) bool {
+			if c2, ok := n.(*ast.CallExpr); ok && c2.End() <= cs.Call.Pos() {
+				if fn := Callee(ci, c2); fn != nil && moves[fn.Name()] {
+					moved = true
+				}
+			}
+			return true
+		})
+		if moved {
+			return false, "call at " + where + " re-reads the tag after the cursor may have moved"
+		}
+	}
+	return true, fmt.Sprintf("partial switch over the parameter; all %d call sites pass the tag of an enclosing switch inside a case the callee handles, before the cursor moves", len(sites))
 }
 
 // exhaustiveSwitchAround: the panic is the default arm of (or follows) a switch whose tag has an enum type declared in the
